@@ -260,7 +260,7 @@ _PW_RULE = ("[1 request in 7 is cancelled at issue, so that both sides of the po
     "Local's full state at its end (addresses with owner/status/primary, raw request queues incl. finished entries, inhibit, ENI status); "
     "every cloud call (create / assign / unassign / delete) blocks at a gate of the fake cloud until the harness answers it: success, error "
     "before the effect, error after a partial or the full effect (returning what took effect), with plain / ENI-limit / address-exhausted "
-    "codes. Events per case: 30-70 of pods asking (bursts, repeats pinned like AllocIP does), releasing, callers giving up, balancer runs, "
+    "codes. Events per case: 30-70 of pods asking (bursts, repeats pinned like AllocIP does), releasing (1 release event in 4 repeats the pod's last, already answered release request - the runtime's repeated DEL - after its addresses may have gone to other pods), callers giving up, balancer runs, "
     "syncs (also failing), remote removal of addresses, direct Dispose(n), pauses; then a drain with a healthy cloud and a quiescent-point "
     "comparison. Each recorded region is one protocol line the Lean model replays; the model's slot state must equal the recorded one. "
     "non-trivial = every case; distinct = distinct line sequence.")
